@@ -206,7 +206,7 @@ def run(ctx):
         samples=[{"case": c.key, "expected": c.expect} for c in (cases[0], cases[len(cases) // 2], cases[-1])],
         failures=failures[:20],
     )
-    ctx.need(len(observed) >= 0.98 * len(cases), "only %d of %d cases observed" % (len(observed), len(cases)))
+    ctx.need(len(observed) >= 0.98 * len({c.key for c in cases}), "only %d of %d cases observed" % (len(observed), len(cases)))
 
 
 def replay(ctx, rep):
